@@ -3,38 +3,21 @@
    `chain N`: task 0 scheduled from outside, the executor's callback schedules task r+1 when r is delivered —
    scheduling from inside the callback has the effect it has outside: every task runs and is delivered, in order. -/
 import Verif.Model.StreamSrc
+import Verif.Model.ExecFifo
 
 namespace Verif.Drv.ExecCb
 open Verif.StreamSrc
 
-/-- `slab OPS…`: manual tasks on one executor — `sI` schedule, `cI` complete and wake, `wI` wake, `d` dispatch, `x` remove and drop the executor.  The
-    executor is a FIFO of runnables: scheduling queues the task, a wake queues a task that was polled, is not done and is
-    not queued; a dispatch polls the queued tasks in order and delivers those whose flag is set (their futures are dropped
-    then); when the executor goes, every future it still holds is dropped, whoever else holds a waker. -/
-structure Slab where
-  flags : List Nat := []
-  queued : List Nat := []
-  polled : List Nat := []
-  done : List Nat := []
-  out : List Nat := []
-  sched : List Nat := []
-  dropped : List Nat := []     -- futures that have been dropped: delivered ones, and everything the executor held when it went
-  dead : Bool := false         -- the executor has been removed from the loop and dropped
-
-def Slab.wake (s : Slab) (i : Nat) : Slab :=
-  if s.polled.contains i && !s.done.contains i && !s.queued.contains i && !s.dead then { s with queued := s.queued ++ [i] } else s
-
-def Slab.op (s : Slab) (o : String) : Slab :=
+/-- `slab OPS…`: `sI` schedule, `cI` complete and wake, `wI` wake, `d` dispatch, `x` remove and drop the executor
+    (Verif.ExecFifo) -/
+def slabOp (o : String) : Verif.ExecFifo.Op :=
   let i := (o.drop 1).toNat?.getD 0
   match o.toList.head? with
-  | some 's' => if s.dead then s else { s with queued := s.queued ++ [i], sched := s.sched ++ [i] }
-  | some 'c' => ({ s with flags := s.flags ++ [i] } : Slab).wake i
-  | some 'w' => s.wake i
-  | some 'x' => { s with dead := true, queued := [], dropped := s.dropped ++ s.sched }
-  | _ =>
-    s.queued.foldl (fun (s : Slab) i =>
-      if s.flags.contains i then { s with done := s.done ++ [i], out := s.out ++ [i], dropped := s.dropped ++ [i] }
-      else { s with polled := s.polled ++ [i] }) { s with queued := [] }
+  | some 's' => .sch i
+  | some 'c' => .cpl i
+  | some 'w' => .wk i
+  | some 'x' => .drop
+  | _ => .disp
 
 def step (line : String) : Option String :=
   match (line.splitOn " ").filter (· ≠ "") with
@@ -47,9 +30,9 @@ def step (line : String) : Option String :=
     let n := n.toNat?.getD 0
     some s!"yield {n} delivered=[0,1]"
   | "slab" :: ops =>
-    let s := ops.foldl Slab.op {}
+    let s := Verif.ExecFifo.run (ops.map slabOp)
     let gone := (List.range 64).filter s.dropped.contains
-    some s!"slab delivered=[{",".intercalate (s.out.map toString)}] dropped=[{",".intercalate (gone.map toString)}] panicked=0"
+    some s!"slab delivered=[{",".intercalate (s.done.map toString)}] dropped=[{",".intercalate (gone.map toString)}] panicked=0"
   | ["stream", n, d] =>
     let n := n.toNat?.getD 0
     let d := d.toNat?.getD 0
